@@ -3,6 +3,9 @@ def lookup(pid):
     if pid in ("C09", "C10", "C11"):
         from checks import exprcheck
         return exprcheck.run
+    if pid == "C05":
+        from checks import typecheck
+        return typecheck.run
     if pid in sigcheck.CFG:
         return sigcheck.run
     if pid == "C16":
